@@ -192,10 +192,11 @@ Definition builtin_apply (local_off : Z) (name : list Z) (args : list value) : o
     else if name_is name "max" || name_is name "min" then Ok (VNum d)
     else Unk                                             (* exp ln log sqrt: not modelled *)
   | [VNum v; VNum _] =>
-    (* roundCash(v, places) as the code has it: places is ignored; the remainder of v by 1 decides between
-       ceil (remainder <= 0.05, or not comparable) and floor *)
+    (* roundCash(v, places) as the code has it: places is ignored; the remainder of v by 1 is compared with
+       decimal.New(5, -2), which is 500 (the second argument of New is a scale, the negated exponent), so the
+       result is ceil(v) for every v; not mentioned by any property *)
     if name_is name "roundCash" then
-      if dec_cmp (dec_rem v dec_one) (Fin false 5 (-2)) <=? 0 then Ok (VNum (dec_ceil v))
+      if dec_cmp (dec_rem v dec_one) (Fin false 5 2) <=? 0 then Ok (VNum (dec_ceil v))
       else Ok (VNum (match v with NaN => NaN | _ => dec_floor v end))
     else Err
   | [VStr s; VStr t] =>
